@@ -373,6 +373,35 @@ def mutate(rng, seed, pool):
     return "truncate", bytes(b[:rng.randrange(len(b) + 1)])
 
 
+def json_name_escapes(doc):
+    """every member name of a JSON document written with escape sequences: one character (first, last, the colon, the one after the colon,
+    the `@`), every character; the parser then owns a dynamic copy of the name, freed by the next token"""
+    out, i, n = [], 0, len(doc)
+    while i < n:
+        if doc[i:i + 1] != b'"':
+            i += 1
+            continue
+        j = i + 1
+        while j < n and doc[j:j + 1] != b'"':
+            j += 2 if doc[j:j + 1] == b"\\" else 1
+        k = j + 1
+        while k < n and doc[k:k + 1] in b" \t\r\n":
+            k += 1
+        name = doc[i + 1:j]
+        if doc[k:k + 1] == b":" and name and b"\\" not in name:
+            esc = lambda ps: b"".join((b"\\u%04x" % name[q]) if q in ps else name[q:q + 1] for q in range(len(name)))
+            pos = {0, len(name) - 1}
+            c = name.find(b":")
+            if c >= 0:
+                pos |= {c, c + 1, max(c - 1, 0)}
+            for q in sorted(pos):
+                if q < len(name):
+                    out.append(doc[:i + 1] + esc({q}) + doc[j:])
+            out.append(doc[:i + 1] + esc(set(range(len(name)))) + doc[j:])
+        i = j + 1
+    return out
+
+
 def rep(pre, op, n, mid, cl, post):
     """compact description of pre + op*n + mid + cl*n + post (expanded by the driver)"""
     return "R:%s,%s,%d,%s,%s,%s" % (hexs(pre), hexs(op), n, hexs(mid), hexs(cl), hexs(post))
@@ -603,6 +632,24 @@ class Robust:
             for cl in (129, 300):
                 A(out, "xmltext", L("op", "x", "rpc", hexs(b'<op xmlns="urn:rb"><a>' + b"a" * pl + b"<![CDATA[" + b"b" * cl + b"]]></a></op>")))
                 A(out, "xmltext", L("data", "x", PARSE_STRICT, VAL_PRESENT, hexs(b'<top xmlns="urn:rb"><axml>' + b"a" * pl + b"<![CDATA[" + b"b" * cl + b"]]></axml></top>")))
+        # ---------- escaped member names everywhere in JSON (envelopes, module-qualified names, metadata, anydata / anyxml content) ----------
+        jx = [b'{"rb:top":{"@":{"yang:operation":"x"},"name":"n","@name":{"ietf-yang-metadata:x":"1","rb:nometa":1},"any":{"rb:top":{"name":"q"},"u:v":{"@w":{"m:a":1}}},'
+              b'"axml":{"k":{"@":{"p:q":"r"}}},"item":[{"id":1,"@id":{"yang:operation":"y"}}],"tag":["a"],"@tag":[{"yang:insert":"first"}]},"none:u":{"@":{"n:m":"1"},"none:w":[1]}}']
+        for tx in JSON_SEEDS + jx:
+            for m in json_name_escapes(tx):
+                for po in (PARSE_STRICT, PARSE_OPAQ):
+                    A(out, "json-esc", L("data", "j", po, VAL_PRESENT, hexs(m)))
+        jo = [(ty, tx) for f, ty, tx in OP_SEEDS if f == "j"] + [
+            ("rc-rpc", b'{"rb:input":{"rb:a":"x","@a":{"yang:operation":"x"}}}'), ("rc-rpc", b'{"input":{}}'), ("rc-rpc", b'{"nomod:input":{"a":"x"}}'),
+            ("rc-rpc", b'{"rb:inputs":{"a":"x"}}'), ("rc-rpc", b'{"rb:input":5}'), ("rc-rpc", b'{"@rb:input":{}}'),
+            ("rc-reply", b'{"rb:output":{"rb:r":"x"}}'), ("rc-reply", b'{"rb:out":{"r":"x"}}'), ("rc-reply", b'{"rb:output":[]}'),
+            ("rc-notif", b'{"ietf-restconf:notification":{"ietf-restconf:eventTime":"2020-01-01T00:00:00Z","rb:top":{"item":[{"id":1,"changed":{"what":"w"}}]}}}'),
+            ("rc-notif", b'{"ietf-restconf:notification":{"rb:ev":{"sev":"low"}}}'), ("rc-notif", b'{"restconf:notification":{}}'),
+            ("rc-notif", b'{"ietf-restconf:notification":null}'), ("rc-notif", b'{"notification":{"eventTime":"2020-01-01T00:00:00Z"}}')]
+        for ty, tx in jo:
+            A(out, "json-esc", L("op", "j", ty, hexs(tx)))
+            for m in json_name_escapes(tx):
+                A(out, "json-esc", L("op", "j", ty, hexs(m)))
         # ---------- failing XPath / path calls of every kind: the next unrelated error must not carry anything of them ----------
         badxp = [b"re-match(/rb:top/rb:name, '(x[0-9]')", b"/rb:top/rb:tag[re-match(., '[a')]", b"re-match(., '\\p{IsNope}')", b"/rb:top/rb:item[re-match(rb:val, ')')]/rb:id",
                  b"nofunc(1)", b"count()", b"count(1, 2)", b"/nope:top", b"/rb:top/rb:item[nope:id=1]", b"deref(1)", b"derived-from(/rb:types/rb:idref, 'nope:x')",
